@@ -1493,6 +1493,7 @@ def scope_program(rng):
         sp.enter()
         for p_, i in zip(params, pid):
             sp.ops.append(f'var {p_} {i}')
+            sp.env[-1][p_] = ('var', i)      # a parameter hides an outer enumerator / typedef name of the same spelling
         # chibicc opens a second scope for the body; a valid program never redeclares a parameter there, so reserve them
         sp.enter()
         sp.stack[-1]['var'] |= set(params)
@@ -1779,13 +1780,14 @@ MANIFEST = {
                   'diagnostic; tied by a source pin of resolve_goto_labels and the three places that record label names, and by generated '
                   'programs whose label / object / typedef / tag / enumerator names are proper prefixes of one another); and the COMPOSITION '
                   'with C01: C03_function_correct_partial (a function body of expression statements, blocks, if/else, while, for(init;c;inc), '
-                  'do-while, switch with case / default labels (fall-through, default anywhere, constants negative or above 32 bits, compare '
-                  'ladder on the X86 model), break, continue, return over the integer expressions of C01 - all operators, && || ?: , = op= ++ -- on locals '
+                  'do-while, switch with case / default labels and GNU case ranges (fall-through, default anywhere, constants negative or above 32 bits, '
+                  'compare ladder incl. the unsigned sub;cmp;jbe range test on the X86 model), break, continue, return over the integer expressions of C01 - all operators, && || ?: , = op= ++ -- on locals '
                   '- compiled as chibicc compiles it, runs on the label machine from the first line of the body to .L.return with %rax '
                   'representing the C11 value of the returned expression and the frame holding the final store, for every such function, '
                   'every initial store and every terminating execution of the C11 abstract machine), C03_function_labels_fresh (every '
                   'label of a function defined once: one count() for statements and expressions, new_unique_name() for break/continue/case), '
-                  'C03_function_fuel_irrelevant (the outcome of the abstract machine does not depend on the fuel), '
+                  'C03_function_fuel_irrelevant (the outcome of the abstract machine does not depend on the fuel), C03_function_frame_preserved '
+                  '(with chibicc\'s frame layout nothing at or above %rbp - saved %rbp, return address, caller\'s frame - is written), '
                   'C03_function_machine (the machine is C01\'s label machine).  Tied on every run by exact skeleton-text comparison with chibicc -S and by '
                   'trace comparison of compiled programs against gcc and the Lean spec; scoping against generated shadowing programs.',
     'level_note': 'C03_switch_select has the explicit hypothesis "lo <= hi in the controlling type" (the property\'s own wording). '
@@ -1795,7 +1797,7 @@ MANIFEST = {
                   'literal C03_preserve_Statement (exact fuel equality with Spec.exec, no hypotheses) stays open.  && || ?: , and statement '
                   'expressions are covered by differential execution against gcc only in the statement-level theorems; in '
                   'C03_function_correct_partial they are inside the theorem.  Calls and casts are abstracted in the skeleton (C06/C01).  '
-                  'C03_function_correct_partial covers neither goto / labels, GNU case ranges, switch bodies that are not a list of statements each '
+                  'C03_function_correct_partial covers neither goto / labels, switch bodies that are not a list of statements each '
                   'labelled at most once at its head (Duff; the code model covers them and is tied by text), nor calls, parameter passing, '
                   'prologue / epilogue, non-integer types, pointers, globals, nor diverging or undefined executions; its hypotheses are '
                   'decidable (compileFn succeeds, every full expression conflict-free) plus the frame invariant FrameX the check validates '
